@@ -233,8 +233,9 @@ impl SchedulerCore {
 
         // Find the first thread that is not marked as busy and schedule this task on it
         for &(ref busy_rc, ref thread) in threads.iter() {
-            if let Ok(mut busy) = busy_rc.try_lock() {
-                // If the busy lock is held, then we consider the thread to be busy
+            // The busy lock is only ever held briefly, while a thread decides whether or not it is going dormant: wait for that decision
+            // (treating a held lock as 'busy' here would leave the new work unscheduled if the thread then went dormant without seeing it)
+            if let Ok(mut busy) = busy_rc.lock() {
                 if !*busy {
                     // Clone the busy mutex so we can return this thread to readiness
                     let also_busy =  busy_rc.clone();
